@@ -350,7 +350,7 @@ func Axioms(ts []*smt.Term) []*smt.Term {
 	var addrApps []*smt.Term
 	var bech, unbech []*smt.Term
 	for _, t := range ts {
-		smt.Walk(t, seen, func(x *smt.Term) {
+		smt.WalkGround(t, seen, func(x *smt.Term) {
 			if x.Op != "app" {
 				return
 			}
@@ -368,7 +368,7 @@ func Axioms(ts []*smt.Term) []*smt.Term {
 	var strLits []*smt.Term
 	seen2 := map[*smt.Term]bool{}
 	for _, t := range ts {
-		smt.Walk(t, seen2, func(x *smt.Term) {
+		smt.WalkGround(t, seen2, func(x *smt.Term) {
 			if x.Op == "app" && strings.HasPrefix(x.Name, "strtmpl!") {
 				tmpls = append(tmpls, x)
 			}
